@@ -111,9 +111,11 @@ def judgeConverge (ts : List TInfo) (ops obs : List Json) : List String :=
     -- a job whose submission failed does not run: such event sets have no well-defined actual outcome
     let inconsistent := outcomes.contains "submission failed" &&
       jobEvs.any fun e => ["started", "succeeded", "failed"].contains e.text
+    -- a poll the scheduler requested (backward message) and that has not been answered yet
+    let pollPending := cur.foldl (fun (pend : Bool) r => if r.fl == "polled" then r.r else pend || r.r) false
     match outcomes, cur.getLast? with
     | [o], some last =>
-      if sn == 0 || inconsistent || !(cur.any fun r => r.m == o) || last.r then none else
+      if sn == 0 || inconsistent || !(cur.any fun r => r.m == o) || pollPending then none else
       -- the last state of the instance: the pool at the end if it is still there under the same job
       let fin : Option Snap :=
         match finalPool.find? (fun x => x.p == k.1 && x.n == k.2) with
